@@ -78,6 +78,32 @@ class ABuf:
     def truth(self, ex):
         return ex.branch(self.n > 0)
 
+    def sym_eq(self, ex, other):
+        if isinstance(other, (bytes, bytearray, SBytes)):
+            items = SBytes.of(other).items
+            return mk_bool(z3.And(self.n == len(items), *[self.fn(j) == (int_term(b) if isinstance(b, Sym) else int(b)) for j, b in enumerate(items)]))
+        if isinstance(other, ABuf):
+            if other is self or (other.fn is self.fn and z3.eq(z3.simplify(other.n - self.n), z3.IntVal(0))):
+                return True
+            i = z3.Int('i!q')
+            return mk_bool(z3.And(self.n == other.n, z3.ForAll([i], z3.Implies(z3.And(i >= 0, i < self.n), self.fn(i) == other.fn(i)))))
+        return False
+
+    def concat(self, ex, other, other_first=False):
+        """self + other (or other + self): a new immutable buffer."""
+        if isinstance(other, (bytes, bytearray, SBytes)) and len(SBytes.of(other).items) == 0:
+            return ABuf(ex, self.fn, self.n, self.mutable, self.tag)
+        if other_first:
+            if isinstance(other, ABuf):
+                return other.concat(ex, self)
+            left = ABuf(ex, None, z3.IntVal(0), False, self.tag)
+            left.sym_method(ex, 'extend').fn(ex, left, other)
+            return left.concat(ex, self)
+        out = ABuf(ex, self.fn, self.n, True, self.tag)
+        out.sym_method(ex, 'extend').fn(ex, out, other)
+        out.mutable = self.mutable
+        return out
+
     def sym_method(self, ex, name):
         if name == 'extend':
             def extend(ex, me, other):
@@ -140,6 +166,18 @@ class ABuf:
                     raise PyRaise(make_exc('ValueError', 'subsection not found'))
                 return mk_int(s)
             return BoundBuiltin(f'bytearray.{name}', rfind, self)
+        if name in ('endswith', 'startswith'):
+            def ends(ex, me, sub, *a):
+                sub = ex.concretize(sub)
+                if a or isinstance(sub, tuple):
+                    raise Unsupported(f'{name}() with bounds or several alternatives on a symbolic buffer')
+                sb = SBytes.of(sub)
+                if not sb.concrete():
+                    raise Unsupported(f'{name}() of symbolic bytes')
+                k = len(sb.items)
+                off = (me.n - k) if name == 'endswith' else z3.IntVal(0)
+                return mk_bool(z3.And(me.n >= k, *[me.fn(off + j) == int(b) for j, b in enumerate(sb.items)]))
+            return BoundBuiltin(f'bytes.{name}', ends, self)
         if name == 'hex':
             from .sstr import SStr, Atom
             return BoundBuiltin('bytes.hex', lambda ex, me, *a: SStr([Atom(f'hex-of-{me.tag}')]), self)
